@@ -512,6 +512,13 @@ def _grp_element():
     return "element", base, var
 
 
+def compute_form_data_quiet(F):
+    try:
+        ufl.algorithms.compute_form_data(F)
+    except BaseException:
+        pass
+
+
 def _grp_domain():
     def mk(cell="triangle", gdim=2, cd=1, fn=None, ce=None):
         def thunk():
@@ -530,6 +537,19 @@ def _grp_domain():
             m2 = E.mesh_for("triangle", 2)
             Q = ufl.FunctionSpace(m2, E.P("triangle", 1))
             g2 = ufl.Coefficient(Q)
+            if kind.startswith("primed-"):
+                # history: the objects of the second mesh were first used in a form where that mesh is number 0
+                c2 = ufl.Constant(m2)
+                (g2 * g2 * c2 * ufl.SpatialCoordinate(m2)[0] * ufl.dx(domain=m2)).signature()
+                compute_form_data_quiet(g2 * g2 * ufl.dx(domain=m2))
+                if kind == "primed-coef-other-mesh":
+                    return b.f * g2 * b.dx
+                if kind == "primed-constant-other-mesh":
+                    return b.f * c2 * b.dx
+                if kind == "primed-x-other-mesh":
+                    return b.f * ufl.SpatialCoordinate(m2)[0] * b.dx
+                if kind == "primed-argument-other-mesh":
+                    return b.f * ufl.TestFunction(Q) * b.dx
             if kind == "coef-other-mesh":
                 return b.f * g2 * b.dx
             if kind == "coef-other-mesh-only":
@@ -566,7 +586,8 @@ def _grp_domain():
     ]
     var += [("domain-" + k, two(k)) for k in ["coef-other-mesh", "coef-other-mesh-only", "integrate-other-mesh", "two-integrals-two-meshes",
                                                 "two-integrals-cross", "x-other-mesh", "constant-other-mesh", "constant-same-mesh",
-                                                "extra-map-facet", "extra-map-cell"]]
+                                                "extra-map-facet", "extra-map-cell", "primed-coef-other-mesh",
+                                                "primed-constant-other-mesh", "primed-x-other-mesh", "primed-argument-other-mesh"]]
     return "domain", base, var
 
 
